@@ -21,11 +21,28 @@ type mStateRec struct {
 	Lines []lineRec `json:"lines"`
 }
 
+// lineValRec is a line VALUE of a pair and the value its ReversedLine must be.
+type lineValRec struct {
+	I  int64 `json:"i"`
+	W  int64 `json:"w"`
+	RF int64 `json:"rf"`
+	RT int64 `json:"rt"`
+	RI int64 `json:"ri"`
+	RW int64 `json:"rw"`
+}
+
+// lidRec is the edge VALUE of an ordered pair: its line ids, weight, the ends of its
+// ReversedEdge and its line values.
 type lidRec struct {
-	U   int64   `json:"u"`
-	V   int64   `json:"v"`
-	IDs []int64 `json:"ids"`
-	W   int64   `json:"w"`
+	U   int64        `json:"u"`
+	V   int64        `json:"v"`
+	IDs []int64      `json:"ids"`
+	W   int64        `json:"w"`
+	RF  int64        `json:"rf"`
+	RT  int64        `json:"rt"`
+	LV  []lineValRec `json:"lv"`
+	// HasValues is false for cases printed before the specification listed the values
+	HasValues bool `json:"-"`
 }
 
 type mFullState struct {
@@ -410,6 +427,92 @@ func (l *mlive) checkState(st *mFullState, ids []int64) []string {
 			}
 		}
 	}
+	// the returned VALUES: multi.Edge / multi.WeightedEdge for every joined pair from every query
+	// that returns one, and the line values with their reversals
+	byPair := map[edgeKey]*lidRec{}
+	for i := range st.Lids {
+		st.Lids[i].HasValues = st.Lids[i].LV != nil
+		byPair[edgeKey{st.Lids[i].U, st.Lids[i].V}] = &st.Lids[i]
+	}
+	for i := range st.Lids {
+		lr := &st.Lids[i]
+		mu, mv := lr.U, lr.V
+		u, v := l.real(mu), l.real(mv)
+		k := edgeKey{mu, mv}
+		queries := []struct {
+			name string
+			get  func() graph.Edge
+		}{{"Edge", func() graph.Edge { return g.(interface{ Edge(int64, int64) graph.Edge }).Edge(u, v) }}}
+		if ug, ok := g.(graph.Undirected); ok {
+			queries = append(queries, struct {
+				name string
+				get  func() graph.Edge
+			}{"EdgeBetween", func() graph.Edge { return ug.EdgeBetween(u, v) }})
+		}
+		if wg, ok := g.(graph.Weighted); ok {
+			queries = append(queries, struct {
+				name string
+				get  func() graph.Edge
+			}{"WeightedEdge", func() graph.Edge {
+				if we := wg.WeightedEdge(u, v); we != nil {
+					return we
+				}
+				return nil
+			}})
+		}
+		if wg, ok := g.(graph.WeightedUndirected); ok {
+			queries = append(queries, struct {
+				name string
+				get  func() graph.Edge
+			}{"WeightedEdgeBetween", func() graph.Edge {
+				if we := wg.WeightedEdgeBetween(u, v); we != nil {
+					return we
+				}
+				return nil
+			}})
+		}
+		for _, q := range queries {
+			e := q.get()
+			if (e != nil) != heft[k] {
+				bad("%s(%d,%d) non-nil = %v, model %v", q.name, mu, mv, e != nil, heft[k])
+				continue
+			}
+			if e == nil {
+				continue
+			}
+			what := fmt.Sprintf("%s(%d,%d)", q.name, mu, mv)
+			f, t := l.model(e.From().ID()), l.model(e.To().ID())
+			if l.k.directed && (f != mu || t != mv) {
+				bad("%s is oriented (%d,%d)", what, f, t)
+				continue
+			}
+			l.checkEdgeValue(what, e, byPair, &errs)
+		}
+		// line values
+		if lr.HasValues {
+			l.checkLineValues(fmt.Sprintf("Lines(%d,%d)", mu, mv), g.Lines(u, v), byPair, &errs)
+			if wg, ok := g.(graph.WeightedMultigraph); ok {
+				it := wg.WeightedLines(u, v)
+				l.checkLineValues(fmt.Sprintf("WeightedLines(%d,%d)", mu, mv), linesOfWeighted{it}, byPair, &errs)
+			}
+		}
+	}
+	if eg, ok := g.(interface{ WeightedEdges() graph.WeightedEdges }); ok {
+		it := eg.WeightedEdges()
+		seen := map[edgeKey]bool{}
+		for it.Next() {
+			e := it.WeightedEdge()
+			a, b := l.norm(l.model(e.From().ID()), l.model(e.To().ID()))
+			if seen[edgeKey{a, b}] {
+				bad("WeightedEdges(): pair (%d,%d) enumerated twice", a, b)
+			}
+			seen[edgeKey{a, b}] = true
+			l.checkEdgeValue(fmt.Sprintf("WeightedEdges() item (%d,%d)", a, b), e, byPair, &errs)
+		}
+		if len(seen) != len(st.Pairs) {
+			bad("WeightedEdges() has %d pairs, model %d", len(seen), len(st.Pairs))
+		}
+	}
 	// allocator freshness in this state (the model's NewNode / NewLine guards):
 	// an id handed out now must not be live
 	if na, ok := g.(graph.NodeAdder); ok {
@@ -456,6 +559,7 @@ func (l *mlive) checkState(st *mFullState, ids []int64) []string {
 				bad("Edges(): pair (%d,%d) enumerated twice", a, b)
 			}
 			seen[edgeKey{a, b}] = true
+			l.checkEdgeValue(fmt.Sprintf("Edges() item (%d,%d)", a, b), e, byPair, &errs)
 			if n >= 0 && it.Len() != n-cnt {
 				bad("Edges(): Len()=%d after %d of %d Next calls", it.Len(), cnt, n)
 			}
@@ -477,6 +581,165 @@ func (l *mlive) checkState(st *mFullState, ids []int64) []string {
 		}
 	}
 	return errs
+}
+
+// linesOfWeighted presents a WeightedLines iterator as a Lines iterator.
+type linesOfWeighted struct{ graph.WeightedLines }
+
+func (w linesOfWeighted) Line() graph.Line {
+	if l := w.WeightedLine(); l != nil {
+		return l
+	}
+	return nil
+}
+
+// checkEdgeValue compares a returned multi.Edge / multi.WeightedEdge with the value the
+// specification printed for the pair it claims to join: the lines behind its embedded iterator,
+// Weight() asked twice (the iterator must be back at its start each time), and ReversedEdge.
+func (l *mlive) checkEdgeValue(what string, e graph.Edge, byPair map[edgeKey]*lidRec, errs *[]string) {
+	bad := func(f string, a ...any) { *errs = append(*errs, what+": "+fmt.Sprintf(f, a...)) }
+	f, t := l.model(e.From().ID()), l.model(e.To().ID())
+	lr := byPair[edgeKey{f, t}]
+	if lr == nil || len(lr.IDs) == 0 {
+		bad("edge value with ends (%d,%d), which the model does not join", f, t)
+		return
+	}
+	var it graph.Lines
+	var weight func() float64
+	switch v := e.(type) {
+	case multi.Edge:
+		if l.k.weighted {
+			bad("is a multi.Edge, the documentation promises a multi.WeightedEdge")
+			return
+		}
+		it = v.Lines
+	case multi.WeightedEdge:
+		if !l.k.weighted {
+			bad("is a multi.WeightedEdge, the documentation promises a multi.Edge")
+			return
+		}
+		if v.WeightedLines != nil {
+			it = linesOfWeighted{v.WeightedLines}
+		}
+		weight = v.Weight
+	default:
+		bad("is a %T, the documentation promises multi.Edge / multi.WeightedEdge", e)
+		return
+	}
+	if it == nil {
+		bad("edge value without lines")
+		return
+	}
+	want := setOf(lr.IDs)
+	if weight != nil {
+		for call := 1; call <= 2; call++ {
+			if w := weight(); w != float64(lr.W) {
+				bad("Weight() call %d = %v, model %d", call, w, lr.W)
+			}
+			if n := it.Len(); n != len(lr.IDs) {
+				bad("Len() of the embedded lines = %d after Weight() call %d, model %d", n, call, len(lr.IDs))
+			}
+		}
+	}
+	got := map[int64]bool{}
+	for it.Next() {
+		ln := it.Line()
+		if ln == nil {
+			bad("nil line")
+			break
+		}
+		got[l.modelLid(f, t, ln.ID())] = true
+		if len(got) > 1000 {
+			break
+		}
+	}
+	it.Reset()
+	if !eqSet(got, want) {
+		bad("lines of the edge value = %s, model %s", fmtSet(got), fmtSet(want))
+	}
+	if weight != nil {
+		if w := weight(); w != float64(lr.W) {
+			bad("Weight() after an iteration and Reset = %v, model %d", w, lr.W)
+		}
+	}
+	if !lr.HasValues {
+		return
+	}
+	r := e.ReversedEdge()
+	if r == nil {
+		bad("ReversedEdge() is nil")
+		return
+	}
+	if rf, rt := l.model(r.From().ID()), l.model(r.To().ID()); rf != lr.RF || rt != lr.RT {
+		bad("ReversedEdge() has ends (%d,%d), model (%d,%d)", rf, rt, lr.RF, lr.RT)
+	}
+	if weight != nil {
+		rw, ok := r.(graph.WeightedEdge)
+		if !ok {
+			bad("ReversedEdge() of a weighted edge value is a %T", r)
+		} else if w := rw.Weight(); w != float64(lr.W) {
+			bad("ReversedEdge().Weight() = %v, model %d", w, lr.W)
+		}
+		if n := it.Len(); n != len(lr.IDs) {
+			bad("Len() of the embedded lines = %d after ReversedEdge().Weight(), model %d", n, len(lr.IDs))
+		}
+	}
+}
+
+// checkLineValues compares every line VALUE an iterator hands out, and its ReversedLine, with
+// the values the specification printed.
+func (l *mlive) checkLineValues(what string, it graph.Lines, byPair map[edgeKey]*lidRec, errs *[]string) {
+	bad := func(f string, a ...any) { *errs = append(*errs, what+": "+fmt.Sprintf(f, a...)) }
+	n := 0
+	for it.Next() {
+		if n++; n > 1000 {
+			break
+		}
+		ln := it.Line()
+		if ln == nil {
+			bad("nil line")
+			break
+		}
+		f, t := l.model(ln.From().ID()), l.model(ln.To().ID())
+		lr := byPair[edgeKey{f, t}]
+		if lr == nil {
+			bad("line with ends (%d,%d) outside the model's ids", f, t)
+			continue
+		}
+		i := l.modelLid(f, t, ln.ID())
+		var lv *lineValRec
+		for j := range lr.LV {
+			if lr.LV[j].I == i {
+				lv = &lr.LV[j]
+			}
+		}
+		if lv == nil {
+			bad("line value (%d,%d,%d) which the model does not have", f, t, i)
+			continue
+		}
+		if l.k.weighted {
+			wl, ok := ln.(graph.WeightedLine)
+			if !ok || wl.Weight() != float64(lv.W) {
+				bad("line (%d,%d,%d) = %v, model weight %d", f, t, i, ln, lv.W)
+			}
+		}
+		r := ln.ReversedLine()
+		if r == nil {
+			bad("ReversedLine() of (%d,%d,%d) is nil", f, t, i)
+			continue
+		}
+		rf, rt, ri := l.model(r.From().ID()), l.model(r.To().ID()), l.modelLid(f, t, r.ID())
+		if rf != lv.RF || rt != lv.RT || ri != lv.RI {
+			bad("ReversedLine() of (%d,%d,%d) = (%d,%d,%d), model (%d,%d,%d)", f, t, i, rf, rt, ri, lv.RF, lv.RT, lv.RI)
+		}
+		if l.k.weighted {
+			rw, ok := r.(graph.WeightedLine)
+			if !ok || rw.Weight() != float64(lv.RW) {
+				bad("ReversedLine() of (%d,%d,%d) = %v, model weight %d", f, t, i, r, lv.RW)
+			}
+		}
+	}
+	it.Reset()
 }
 
 func runMHistory(c *mHistCase, sum *core.Summary) {
